@@ -27,7 +27,11 @@ enum Beh {
     Eintr3,
     ErrIo,
     ErrWouldBlock,
+    /// a long uninterrupted run of interruptions (not part of the enumerated alphabet)
+    EintrStorm,
 }
+/// length of an interruption storm: well beyond any "give up after N retries" constant one would pick
+const STORM: usize = (1 << 17) + 3;
 const ALPHA: [Beh; 8] = [Beh::Full, Beh::Short1, Beh::ShortK, Beh::Zero, Beh::Eintr, Beh::Eintr3, Beh::ErrIo, Beh::ErrWouldBlock];
 const K: usize = 3;
 
@@ -37,6 +41,8 @@ fn expand(script: &[Beh]) -> Vec<Beh> {
     for b in script {
         if *b == Beh::Eintr3 {
             v.extend([Beh::Eintr; 3]);
+        } else if *b == Beh::EintrStorm {
+            v.extend(std::iter::repeat(Beh::Eintr).take(STORM));
         } else {
             v.push(*b);
         }
@@ -77,7 +83,7 @@ impl ReadVolatile for SReader {
             Beh::Short1 => req.min(1),
             Beh::ShortK => req.min(K),
             Beh::Zero => 0,
-            Beh::Eintr | Beh::Eintr3 => {
+            Beh::Eintr | Beh::Eintr3 | Beh::EintrStorm => {
                 self.calls.push(CallRec { req, beh, moved: 0 });
                 return Err(VolatileMemoryError::IOError(std::io::Error::from(ErrorKind::Interrupted)));
             }
@@ -120,7 +126,7 @@ impl WriteVolatile for SWriter {
             Beh::Short1 => req.min(1),
             Beh::ShortK => req.min(K),
             Beh::Zero => 0,
-            Beh::Eintr | Beh::Eintr3 => {
+            Beh::Eintr | Beh::Eintr3 | Beh::EintrStorm => {
                 self.calls.push(CallRec { req, beh, moved: 0 });
                 return Err(VolatileMemoryError::IOError(std::io::Error::from(ErrorKind::Interrupted)));
             }
@@ -370,7 +376,7 @@ fn judge(rig: &Rig, t: Target, e: Entry, script: &[Beh], count: usize, outc: &Ou
     }
     // I6: EINTR retried: an Eintr entry is never the last call unless nothing was left to do
     if let Some(last) = calls.last() {
-        if matches!(last.beh, Beh::Eintr | Beh::Eintr3) {
+        if matches!(last.beh, Beh::Eintr | Beh::Eintr3 | Beh::EintrStorm) {
             v("interruption-not-retried", t, e, script, count, J::dbg(&calls));
         }
     }
@@ -553,6 +559,29 @@ fn long_runs(args: &Args) {
     }
 }
 
+/// "Interrupted any number of times in a row": storms of more than 10^5 consecutive interruptions,
+/// at the start of a transfer and after partial progress, for every entry point and target.
+fn interruption_storms(args: &Args) {
+    let rig = Rig::new();
+    let mut n = 0u64;
+    for (si, script) in [vec![Beh::EintrStorm], vec![Beh::Short1, Beh::EintrStorm], vec![Beh::EintrStorm, Beh::ShortK, Beh::EintrStorm, Beh::ErrIo]].iter().enumerate() {
+        for (ti, t) in [Target::Slice, Target::Region, Target::GuestTwoRegions, Target::GuestEndsInHole].into_iter().enumerate() {
+            for (ei, e) in [Entry::ReadUpTo, Entry::ReadExact, Entry::WriteUpTo, Entry::WriteAll].into_iter().enumerate() {
+                if ((si * 16 + ti * 4 + ei) as u64) % args.shard().1 != args.shard().0 {
+                    continue;
+                }
+                let (_, run) = rig.geometry(t);
+                out::set_case(600_000 + n);
+                if let Err(p) = guarded(|| run_one(&rig, t, e, script, run.min(9))) {
+                    v(&format!("panic/{}", panic_sig(&p)), t, e, script, run.min(9), J::s(p));
+                }
+                n += 1;
+            }
+        }
+    }
+    out::count("interruption_storm_executions", n as i128);
+}
+
 /// Real descriptors: the same scripts through the interposed read(2)/write(2) on a pipe.
 fn fd_replay(args: &Args) {
     if !interpose::available() {
@@ -579,7 +608,7 @@ fn fd_replay(args: &Args) {
                 Beh::Short1 => IBeh::Short(1),
                 Beh::ShortK => IBeh::Short(K),
                 Beh::Zero => IBeh::Zero,
-                Beh::Eintr | Beh::Eintr3 => IBeh::Eintr,
+                Beh::Eintr | Beh::Eintr3 | Beh::EintrStorm => IBeh::Eintr,
                 Beh::ErrIo => IBeh::Err(libc::EIO),
                 Beh::ErrWouldBlock => IBeh::Err(libc::EAGAIN),
             })
@@ -659,6 +688,7 @@ pub fn run(args: &Args) {
     random_scripts(args);
     if !cfg!(miri) {
         long_runs(args);
+        interruption_storms(args);
     }
     if args.shard().0 == 0 {
         fd_replay(args);
